@@ -4,6 +4,7 @@ package shell
 
 import (
 	"io"
+	"sync"
 	"time"
 
 	"github.com/postalsys/muti-metroo/internal/crypto"
@@ -85,4 +86,29 @@ func (h *Handler) VerifAttachPump(peerID identity.AgentID, streamID uint64, key 
 		defer close(done)
 		h.pumpOutput(ss, func() io.Reader { return r }, EncodeStdout)
 	}()
+}
+
+// VerifAttachTwoPumps registers one streaming-mode shell stream and runs the
+// stdout pump over rOut and the stderr pump over rErr concurrently on it (as
+// handleMetadata does with pumpStdout / pumpStderr); both share the stream's
+// session key and writeMu. done is closed when both pumps have returned.
+func (h *Handler) VerifAttachTwoPumps(peerID identity.AgentID, streamID uint64, key *crypto.SessionKey, rOut, rErr io.Reader, done chan<- struct{}) {
+	finished := make(chan struct{})
+	close(finished)
+	ss := &ShellStream{
+		StreamID:     streamID,
+		PeerID:       peerID,
+		MetaReceived: true,
+		Session:      &Session{cancel: func() {}, done: finished},
+		StartTime:    time.Now(),
+		sessionKey:   key,
+	}
+	h.mu.Lock()
+	h.streams[streamID] = ss
+	h.mu.Unlock()
+	var wg sync.WaitGroup
+	wg.Add(2)
+	go func() { defer wg.Done(); h.pumpOutput(ss, func() io.Reader { return rOut }, EncodeStdout) }()
+	go func() { defer wg.Done(); h.pumpOutput(ss, func() io.Reader { return rErr }, EncodeStderr) }()
+	go func() { wg.Wait(); close(done) }()
 }
